@@ -347,6 +347,91 @@ func genRoutes(repo, out string) {
 		fail("main: http.ListenAndServe / <-ec not recognised")
 	}
 	fmt.Fprintf(&sb, "]\n\n/-- `http.ListenAndServe` is started after `<-ec` (the first Run has loaded and installed its generation) -/\ndef serveAfterFirstRun : Bool := %v\n", servePos > firstRunPos)
+	// what wraps the route table on its way to the listener, and what those wrappers do to the request
+	// before they pass it on: every statement that writes through the request parameter (a field, a
+	// header, a cookie, a replaced request)
+	var wrappers, writes []string
+	ast.Inspect(f, func(n ast.Node) bool {
+		c, ok := n.(*ast.CallExpr)
+		if !ok || src(c.Fun) != "http.ListenAndServe" || len(c.Args) != 2 {
+			return true
+		}
+		h := c.Args[1]
+		for {
+			call, ok := h.(*ast.CallExpr)
+			if !ok || len(call.Args) == 0 {
+				break
+			}
+			wrappers = append(wrappers, src(call.Fun))
+			h = call.Args[len(call.Args)-1]
+		}
+		if src(h) != "mux" {
+			wrappers = append(wrappers, "?"+src(h))
+		}
+		return true
+	})
+	for _, wname := range wrappers {
+		fd := findFunc(f, "", wname)
+		if fd == nil {
+			writes = append(writes, wname+": not a function of main.go")
+			continue
+		}
+		ast.Inspect(fd.Body, func(n ast.Node) bool {
+			fl, ok := n.(*ast.FuncLit)
+			if !ok || len(fl.Type.Params.List) != 2 || len(fl.Type.Params.List[1].Names) != 1 {
+				return true
+			}
+			rq := fl.Type.Params.List[1].Names[0].Name
+			wr := fl.Type.Params.List[0].Names[0].Name
+			rooted := func(e ast.Expr) bool {
+				for {
+					switch x := e.(type) {
+					case *ast.SelectorExpr:
+						e = x.X
+					case *ast.IndexExpr:
+						e = x.X
+					case *ast.StarExpr:
+						e = x.X
+					case *ast.ParenExpr:
+						e = x.X
+					case *ast.Ident:
+						return x.Name == rq
+					default:
+						return false
+					}
+				}
+			}
+			ast.Inspect(fl.Body, func(m ast.Node) bool {
+				switch x := m.(type) {
+				case *ast.AssignStmt:
+					for _, l := range x.Lhs {
+						if rooted(l) {
+							writes = append(writes, wname+": "+src(x))
+						}
+					}
+				case *ast.IncDecStmt:
+					if rooted(x.X) {
+						writes = append(writes, wname+": "+src(x))
+					}
+				case *ast.CallExpr:
+					fn := src(x.Fun)
+					if sel, ok := x.Fun.(*ast.SelectorExpr); ok && rooted(sel.X) {
+						switch sel.Sel.Name {
+						case "Set", "Add", "Del", "AddCookie", "WithContext", "Clone", "SetBasicAuth", "ParseForm", "ParseMultipartForm":
+							writes = append(writes, wname+": "+src(x))
+						}
+					}
+					if strings.HasSuffix(fn, ".ServeHTTP") && (len(x.Args) != 2 || src(x.Args[0]) != wr || src(x.Args[1]) != rq) {
+						writes = append(writes, wname+": passes on "+src(x))
+					}
+				}
+				return true
+			})
+			return false
+		})
+	}
+	fmt.Fprintf(&sb, "\n/-- the handlers wrapped around the route table when it is handed to `http.ListenAndServe`, outermost first -/\ndef wrappers : List String := %s\n", leanStrList(wrappers))
+	fmt.Fprintf(&sb, "\n/-- statements of those wrappers that write through the request they pass on (its address, headers, cookies) -/\ndef wrapperRequestWrites : List String := %s\n", leanStrList(writes))
 	sb.WriteString("\nend Shovel.Gen.Routes\n")
 	writeIfChanged(filepath.Join(out, "Routes.lean"), sb.String())
 }
@@ -420,4 +505,12 @@ func genConfig(repo, out string) {
 	}
 	sb.WriteString("]\n\nend Shovel.Gen.Config\n")
 	writeIfChanged(filepath.Join(out, "Config.lean"), sb.String())
+}
+
+func leanStrList(xs []string) string {
+	var q []string
+	for _, x := range xs {
+		q = append(q, leanStr(x))
+	}
+	return "[" + strings.Join(q, ", ") + "]"
 }
